@@ -104,7 +104,17 @@ def parse_spec(path):
             sink[1].afters.append((sink[2], sink[3], text))
         sink = None
 
-    for raw in open(path).read().split("\n"):
+    def expand(pth, depth=0):
+        out = []
+        for ln in open(pth).read().split("\n"):
+            m = re.match(r"\s*@include\s+(\S+)", ln)
+            if m and depth < 4:
+                out.extend(expand(os.path.join(os.path.dirname(pth), m.group(1)), depth + 1))
+            else:
+                out.append(ln)
+        return out
+
+    for raw in expand(path):
         s = raw.strip()
         m = re.match(r"@@\s*(\w+):\s*(.*)$", s)
         if m:
